@@ -128,6 +128,12 @@ void reb_integrator_part2(struct reb_simulation* r){
 			break;
 	}
     
+    if (r->integrator != REB_INTEGRATOR_BS && r->ri_bs.nbody_ode){
+        // Left over from integrating the N-body system with BS earlier. It must not be advanced (and written back to the particles) as if it were a user-defined ODE.
+        reb_ode_free(r->ri_bs.nbody_ode);
+        r->ri_bs.nbody_ode = NULL;
+    }
+
     // Integrate other ODEs
     if (r->integrator != REB_INTEGRATOR_BS && r->N_odes){
         if (r->ode_warnings==0 && (!r->ri_whfast.safe_mode || !r->ri_saba.safe_mode || !r->ri_eos.safe_mode || !r->ri_mercurius.safe_mode)){
